@@ -3,6 +3,7 @@ package main
 // Comparison of every gRPC query with a reference View (used by C19, C17).
 
 import (
+	"bytes"
 	"encoding/hex"
 	"fmt"
 	"sort"
@@ -153,7 +154,11 @@ func CheckQueries(w *World, m View, u QUniverse) []string {
 	}
 	for _, p := range u.Pairs {
 		want, have := m.Pairs[pairKey(p.D, p.T)]
-		for _, spell := range []string{hex.EncodeToString(p.T), "0x" + hex.EncodeToString(p.T)} {
+		spellings := []string{hex.EncodeToString(p.T), "0x" + hex.EncodeToString(p.T), strings.ToUpper(hex.EncodeToString(p.T)), "0x" + strings.ToUpper(hex.EncodeToString(p.T))}
+		if short := bytes.TrimLeft(p.T, "\x00"); len(short) < len(p.T) && len(short) > 0 {
+			spellings = append(spellings, "0x"+hex.EncodeToString(short)) // left-padded on lookup
+		}
+		for _, spell := range spellings {
 			r, err := k.TokenPair(cctx, &cctptypes.QueryGetTokenPairRequest{RemoteDomain: p.D, RemoteToken: spell})
 			if (err == nil) != have || (err == nil && (r.Pair.LocalToken != want || r.Pair.RemoteDomain != p.D || hex.EncodeToString(r.Pair.RemoteToken) != hex.EncodeToString(p.T))) {
 				errs = append(errs, fmt.Sprintf("token-pair query for %s: found=%v %v, expected %v %s", pairKey(p.D, p.T), err == nil, r, have, want))
